@@ -172,6 +172,18 @@ prop("C12", "retransmissions are faithful", "fault_enumeration",
       dict(tests="^TestVerifC12_RetryHandle$", checks_quick=2500, checks_thorough=25000, shards=4)],
      assumptions=["a PUBREL whose Write failed does not count as sent for the 'no PUBLISH after PUBREL' rule"])
 
+prop("C08", "broker-side subscriptions converge to the app's calls", "fault_enumeration",
+     E4RULE + "C08: subscription-heavy histories over a small filter alphabet (a, b, a/+, c/#) so that repeats, QoS changes, "
+     "multi-filter calls, duplicates inside one call and unsubscribes of absent filters are frequent, interleaved with publishes; "
+     "cuts on CONNECT / SUBSCRIBE / UNSUBSCRIBE / PUBLISH and held outages; grid session kept / not kept x AlwaysResubscribe x "
+     "cleanSession. Oracle: (1) at quiescence (race-free idle barrier) the broker table equals the left fold of the accepted "
+     "calls; (2) on the first successful connection, and on any connection whose CONNACK said session present while "
+     "AlwaysResubscribe is off, every SUBSCRIBE belongs to a request whose SUBACK had not yet been received. Non-trivial = a "
+     "reconnect after an acknowledged subscribe together with a repeated filter, an unsubscribe or a request pending at the "
+     "fault; distinct = FNV-64 of the case JSON.",
+     [dict(tests="^TestVerifC08_Subscriptions$", checks_quick=3000, checks_thorough=15000, shards=16)],
+     assumptions=["granted QoS equals requested QoS at the broker model", "quiescence is decided with the verif-tagged observation hook after the reconnect loop pushed its tasks"])
+
 # ---------------------------------------------------------------------------------------------
 # texts for MANIFEST.json (tools/gen_manifest.py)
 
@@ -262,3 +274,7 @@ mtext("C12", "E4 history runner + E3 broker model; E5 for the retry handle",
       "rapid fault-injection property tests; oracle = invariant over all PUBLISH/PUBREL emissions of a message",
       "Sampling of messages and cut sequences; the oracle reads everything handed to Transport.Write, including writes that failed.",
       E4NOTE, "DESIGN.md section 4 / C12")
+
+mtext("C08", "E4 history runner + E3 broker model",
+      "rapid fault-injection property test; oracle = broker subscription table == fold of the calls, and no SUBSCRIBE of an acknowledged request where re-subscription is forbidden",
+      "Sampling of Subscribe/Unsubscribe histories x cut placements x session configurations against the real client.", E4NOTE, "DESIGN.md section 4 / C08")
